@@ -949,6 +949,8 @@ class ServerTls(Server):
         """
         for ca, cx in self.cxes.items():
             if cx.serviceHandshake():
+                if ca in self.ixes and self.ixes[ca] is not cx:
+                    self.shutdownIx(ca)  # stale connection from the same peer address
                 self.ixes[ca] = cx
                 del self.cxes[ca]
 
